@@ -9,8 +9,9 @@ The rebuilt node of a node of `t` has
 * the same link target / device number; for a regular file the input location `<path>` or `<unpack-root>/<path>`;
 * `link_count` 1, for a directory 2 + the number of its children that were described;
 * the modification time of `fstree_defaults_t` (a listing carries no time stamps);
-and its children are the rebuilt children of the node, inserted one after the other with `insert_sorted` (for names
-that are pairwise different that is: sorted by `strcmp`).  Nodes of a type that cannot be described are absent.
+and its children are the rebuilt children of the node, inserted one after the other with `insert_sorted` (for
+pairwise different names the result is the list sorted by `strcmp`, whatever the order of insertion — a fact about
+`insert_sorted` that is not needed and not proved here).  Nodes of a type that cannot be described are absent.
 -/
 import Sqfs.Model.QuoteFs
 import Sqfs.Spec.Quote
